@@ -259,6 +259,23 @@ def _check_conv(case, ctx):
     _unchanged(ctx, h1, kh, 'conv', 'the psf')
     U.check_close(c11, direct_conv(o64, h64), rt, pb + ':direct' + tb, '%s: conv vs explicit circular sum about n//2' % desc, atol=rt * scale)
     U.check_close(cv(h1, o1), c11, rt, pb + ':commutative' + tb, '%s: conv(h,o) vs conv(o,h)' % desc, atol=rt * scale)
+    # the caller renormalises / rewrites its PSF (or its object) in place and convolves again with the same array objects, no other array in between:
+    # the result follows the values the arrays hold now
+    if h1.flags.writeable and o1.flags.writeable and h1.dtype.kind == 'f' and o1.dtype.kind == 'f' and not f32:
+        h_kept, o_kept = h1.copy(), o1.copy()
+        h1 *= h1.dtype.type(0.5)
+        h1[(0,) * h1.ndim] += h1.dtype.type(float(np.abs(h_kept).max()) or 1.0)
+        c_edit = cv(o1, h1)
+        U.check_close(c_edit, direct_conv(o64, _f64(h1)), rt, pb + ':psf-edited-in-place' + tb, '%s: conv(o, h) after h was rewritten in place (same array object)' % desc,
+                      atol=rt * (float(np.sum(np.abs(_f64(h1))) * np.max(np.abs(o64))) + 1e-300))
+        o1 *= o1.dtype.type(-2.0)
+        c_edit2 = cv(o1, h1)
+        U.check_close(c_edit2, direct_conv(_f64(o1), _f64(h1)), rt, pb + ':object-edited-in-place' + tb, '%s: conv(o, h) after o was rewritten in place (same array object)' % desc,
+                      atol=rt * (float(np.sum(np.abs(_f64(h1))) * np.max(np.abs(_f64(o1)))) + 1e-300))
+        h1[...] = h_kept
+        o1[...] = o_kept
+        ko, kh = o1.copy(), h1.copy()
+        ctx.label('arrays-edited-in-place-between-calls')
     # linearity in each argument (the combination itself is formed in float64 and cast, so that both sides see the same input;
     # combinations of integer / boolean arrays are handed over in float64)
     mix_o = (a * o64 + b * o264).astype(odt if odt.kind == 'f' else np.float64)
